@@ -15,7 +15,7 @@ async def _run(n0, cycles):
     log, transports = [], []
     script = [False] * n0 + [True]
     for c in cycles:
-        script += [False] * c["fails"] + [True]
+        script += [False] * c["fails"] + ["instant"] * c.get("instant", 0) + [True]
     conn, proto = CI.make_connection(script, log, transports)
     loop = asyncio.get_running_loop()
     sm_puts = [0]
@@ -63,7 +63,7 @@ async def _run(n0, cycles):
         devices = len(watched)
         before = list(watched)
         mark = len(log)
-        nt = len(transports)
+        nt = len(transports) + c.get("instant", 0)
         count_sm = lambda: sm_puts[0]
         sm_before = count_sm()
         # the k-th read / write after the traffic ends in a fault
@@ -103,25 +103,38 @@ async def _run(n0, cycles):
                 if not any(d is dev for d in watched):
                     watched.append(dev)
                     CI.watch_device(dev, len(watched) - 1, log)
-        seg = log[mark:]
-        opens = [e for e in seg if e[0] == "open"]
-        gaps = []
-        for i, e in enumerate(opens):
-            gaps.append([0 if i == 0 else int(round(e[1] - opens[i - 1][1])), e[2]])
-        new_writer = transports[-1][1] if len(transports) > nt else None
+        # one loss / re-establishment per successful open: a transport whose first write fails at once ("instant") gives a
+        # further complete cycle within this one
+        segs, cur, seen_ok = [], [], False
+        for e in log[mark:]:
+            if seen_ok and (e[0] == "writer-closed" or (e[0] == "connected" and e[2] is False)):
+                segs.append(cur)
+                cur, seen_ok = [], False
+            cur.append(e)
+            if e[0] == "open" and e[2]:
+                seen_ok = True
+        segs.append(cur)
         tc = CI.task_counts(proto, conn)
         for i, d in enumerate(before):
             name = type(d).__name__.lower()
             if proto.data.get(name) is not d:
                 identity_ok = False
-        outs.append({"devices": devices,
-                     "out": [[e[1] for e in seg if e[0] == "connected" and e[2] is False],
-                             len([e for e in seg if e[0] == "writer-closed"]),
-                             gaps,
-                             count_sm() - sm_before,
-                             [e[1] for e in seg if e[0] == "connected" and e[2] is True],
-                             tc["producers"], tc["consumers"]],
-                     "other_tasks": tc["protocol_other"] + tc["connection"], "probe_ok": probe_ok})
+        sm_total = count_sm() - sm_before
+        for j, seg in enumerate(segs):
+            opens = [e for e in seg if e[0] == "open"]
+            gaps = []
+            for i, e in enumerate(opens):
+                gaps.append([0 if i == 0 else int(round(e[1] - opens[i - 1][1])), bool(e[2])])
+            last = j == len(segs) - 1
+            outs.append({"devices": devices,
+                         "out": [[e[1] for e in seg if e[0] == "connected" and e[2] is False],
+                                 len([e for e in seg if e[0] == "writer-closed"]),
+                                 gaps,
+                                 # start-master puts are counted over the whole cycle: one per established transport
+                                 (sm_total - (len(segs) - 1)) if last else 1,
+                                 [e[1] for e in seg if e[0] == "connected" and e[2] is True],
+                                 tc["producers"], tc["consumers"]],
+                         "other_tasks": tc["protocol_other"] + tc["connection"], "probe_ok": probe_ok})
     await asyncio.wait_for(conn.close(), timeout=300)
     rec.uninstall()
     return {"cycles": outs, "identity_ok": identity_ok and all(o["probe_ok"] for o in outs)}
@@ -133,7 +146,7 @@ class C11(Prop):
     rule = ("real Connection (scripted _open_connection) + AsyncProtocol + fake transports under the virtual-time loop: 0..2 failing initial "
             "opens, 1..4 loss/reconnect cycles, each with traffic (frames from the controller and/or an ecoSTER panel, creating 0..2 devices), "
             "a fault at the k-th read or write (end of stream, OSError, silence until the 10 s read timeout, failing write) and 0..3 failing "
-            "reconnect attempts; observed per cycle: connected=False/True events per device, transport close calls, open attempts with their "
+            "reconnect attempts, and 0..2 re-established transports whose very first write fails at once; observed per cycle: connected=False/True events per device, transport close calls, open attempts with their "
             "virtual-time gaps, start-master frames on the new transport, live producer/consumer tasks.  Non-trivial = a device is known when "
             "the connection is lost; distinct by case content.")
     assumptions = ["sockets / serial ports and wait_for cancellation inside a real transport are not modelled: faults are injected at the "
@@ -146,7 +159,8 @@ class C11(Prop):
             for i in range(rng.randrange(1, 5)):
                 traffic = rng.choice([[], [0x45], [0x45, 0x45], [0x51], [0x45, 0x51]]) if i == 0 or rng.random() < 0.4 else rng.choice([[], [0x45]])
                 cycles.append({"traffic": traffic, "fault": rng.choice(FAULTS), "after": rng.randrange(0, 4), "fails": rng.randrange(0, 4),
-                               "busy": i == 0 and rng.random() < 0.4})
+                               "busy": i == 0 and rng.random() < 0.4,
+                               "instant": rng.choice([0, 0, 0, 1, 2])})
             cases.append({"kind": "random", "n0": rng.randrange(0, 3), "cycles": cycles})
         return cases
 
@@ -167,10 +181,13 @@ class C11(Prop):
                 out.append([known, cy["fails"]])
                 for s in cy["traffic"]:
                     seen.add(s)
+                # (devices that come into being later in this cycle are subscribed to by the harness only after it)
+                out += [[known, 0]] * cy.get("instant", 0)
                 continue
             for s in cy["traffic"]:
                 seen.add(s)
             out.append([len(seen), cy["fails"]])
+            out += [[len(seen), 0]] * cy.get("instant", 0)     # each instantly failing transport is one more complete cycle
         return out
 
     def model_many(self, cases):
